@@ -139,6 +139,11 @@ def fixed_float_cases():
     for i, (n, m) in enumerate([(127, 128), (128, 127), (128, 129), (129, 128), (255, 256), (256, 255), (256, 257), (257, 256), (128, 256), (256, 128),
                                 (255, 127), (100, 300), (300, 100), (256, 1), (1, 256), (257, 257)]):
         add([n], [0], [m], ["float64", "complex128", "float32"][i % 3], twice=False, values=["random", "int-valued", "delta"][i % 3])
+    # unchanged shape on integer / bool data (a "nothing to do" shortcut must still return float data), one axis unchanged of two
+    add([4, 5], [0, 1], [4, 5], "int32", twice=False, values="int-valued")
+    add([5, 4], [1, 0], [4, 5], "uint8", twice=False, values="int-valued")
+    add([6], [0], [6], "bool", twice=False)
+    add([4, 5], [1, 0], [5, 8], "int64", twice=False)
     add([2, 130], [1, 0], [128, 3], "float64", twice=False)
     add([130, 2], [0, 1], [128, 3], "complex128", twice=False)
     add([3, 2, 5], [2, 0], [4, 6], "float64", twice=False)
